@@ -31,6 +31,12 @@ Proof. exact (fun E => db_get_spec E Rep_build). Qed.
 Theorem C01_select_exact : forall E s ks q m, Inv s -> wf_query E q -> index_safe q ->
   db_select E s (Some ks) q m = (read_prelude s, OSel (spec_select E ks q m (st_rows s))).
 Proof. exact db_select_spec. Qed.
+(* the key strings of select: "time", "measurement", "tags.<key>", "fields.<key>" (non-empty key) are accepted and mean that attribute;
+   everything else is rejected (the model parses the strings the caller hands in) *)
+Theorem C01_select_keys_parse : forall ks, Forall selkey_ok ks -> parse_selkeys (map print_selkey ks) = Some ks.
+Proof. exact parse_print_selkeys. Qed.
+Theorem C01_select_key_sound : forall s k, parse_selkey s = Some k -> print_selkey k = s /\ selkey_ok k.
+Proof. exact parse_selkey_sound. Qed.
 (* every query the DSL can build is index_safe: the code's own guard sends it to the index only if the index answers it exactly *)
 Theorem C01_dsl_is_index_safe : forall q, dsl_query q = true -> index_safe q.
 Proof. exact dsl_index_safe. Qed.
@@ -66,6 +72,8 @@ Print Assumptions C01_count_exact.
 Print Assumptions C01_contains_exact.
 Print Assumptions C01_get_exact.
 Print Assumptions C01_select_exact.
+Print Assumptions C01_select_keys_parse.
+Print Assumptions C01_select_key_sound.
 Print Assumptions C01_dsl_is_index_safe.
 Print Assumptions C01_reads_agree.
 Print Assumptions C01_sorted_stable.
